@@ -1,6 +1,7 @@
 import WzVerif.Driver.Proto
 import WzVerif.Model.Chunked
 import WzVerif.Model.DevServer
+import WzVerif.Driver.PyPrelude
 namespace Wz.Driver.C19
 open Wz Wz.Proto Wz.Chunked Wz.DevServer
 
@@ -98,6 +99,6 @@ def handle : Handler
     match boolArg chunked, bytesList pieces with
     | some chunked, some pieces => some (hex (bodyWire chunked pieces))
     | _, _ => some badArgs
-  | _, _ => none
+  | cmd, args => Wz.Driver.PyPrelude.handle cmd args  -- `pre.*`: primitives of Util/PyPrelude
 
 end Wz.Driver.C19
